@@ -159,6 +159,18 @@ def mk_endpoint(rng, nettype, alloc, name, array=None, force_role=None):
 
 
 def base_cfg(rng, name, nettype, algo, aw):
+    routing = {"route_algo": algo, "use_id_table": True}
+    if nettype == "narrow-wide" and rng.random() < 0.06:
+        routing["num_vc_id_bits"] = rng.choice([1, 2])
+    if rng.random() < 0.05:
+        routing["rob_idx_bits"] = rng.choice([2, 4])
+    return {
+        "name": name, "description": "generated", "network_type": nettype, "routing": routing,
+        "protocols": protocols(nettype, aw, rng),
+    }
+
+
+def _base_cfg_unused(rng, name, nettype, algo, aw):
     return {
         "name": name,
         "description": "generated",
@@ -449,7 +461,32 @@ def gen_split(rng, algo, nettype):
     return finish(rng, cfg, eps, [{"name": "ra"}, {"name": "rb"}], conns)
 
 
+def gen_ring(rng, algo, nettype):
+    """routers in a cycle, endpoints spread unevenly (a hub with many ports next to 2-port routers)"""
+    aw = 48
+    cfg = base_cfg(rng, "ring", nettype, algo, aw)
+    alloc = AddrAlloc(rng, aw)
+    k = rng.randint(3, 7)
+    rts = [f"q{i}" for i in range(k)]
+    conns = [{"src": rts[i], "dst": rts[(i + 1) % k]} for i in range(k)]
+    if rng.random() < 0.3:
+        rng.shuffle(conns)
+    eps = []
+    hub = rng.randrange(k)
+    if k >= 5 and rng.random() < 0.5:
+        # a many-port hub between two lightly loaded neighbours, nothing on the far side of the ring
+        homes = [hub] * rng.randint(2, 4) + [(hub - 1) % k, (hub + 1) % k]
+    else:
+        homes = [hub] * rng.randint(1, 3) + [rng.randrange(k) for _ in range(rng.randint(1, 3))]
+    homes = homes[:6]
+    for nm, h in zip(names(rng, len(homes)), homes):
+        eps.append(mk_endpoint(rng, nettype, alloc, nm))
+        conns.append({"src": nm, "dst": rts[h]} if rng.random() < 0.5 else {"src": rts[h], "dst": nm})
+    return finish(rng, cfg, eps, [{"name": r} for r in rts], conns, shuffle=False)
+
+
 FAMILIES = {
+    "ring": gen_ring,
     "p2p": gen_p2p,
     "split": gen_split,
     "star": gen_star,
@@ -487,6 +524,8 @@ def gen_case(rng, families=None, algos=None, nettypes=None):
             u = rng.random()
             if u < 0.03 and algo == "ID":
                 fam = "p2p"
+            elif 0.05 <= u < 0.17:
+                fam = "ring"
             elif u < 0.05:
                 fam = "split"
         nettype = rng.choice(nettypes or ["axi", "narrow-wide"])
